@@ -143,6 +143,7 @@ class PlotHook:
                 nr_ = sum(1 for ln in ax_after.get_lines() if ln.get_linewidth() == 0.3 and rgba(ln.get_color()) == rgba("lightpink"))
                 if (na_, nr_) != (sum(s["vw"][0]), len(s["vw"][0]) - sum(s["vw"][0])):
                     self.fail("prepost:after-count", f"'after rejection' panel shows {na_} accepted / {nr_} rejected curves", sline, cv, inst)
+                self.check_prepost_markers(ax_before, ax_after, inner[0], lambda k_, m_: self.fail(k_, m_, sline, cv, inst))
                 # waveform panels: one line per window and component, styled by the window mask
                 for axw in (axs[0], axs[2], axs[4]):
                     cols = [rgba(ln.get_color()) == rgba("#888888") for ln in axw.get_lines()]
@@ -178,6 +179,26 @@ class PlotHook:
                 plt.close("all")
         self.traces.append(dict(cv=cv, s0=p0, ev=events))
         self.trace_meta.append((cv, s, inst.name()))
+
+    @staticmethod
+    def check_prepost_markers(ax_before, ax_after, trad, fail):
+        """peak markers of the two HVSR panels against the object's OWN per-window peaks and masks:
+        before = every window that has a peak, drawn as accepted; after = by the peak mask"""
+        def marks(ax, face):
+            return sorted((float(x), float(y)) for ln in ax.get_lines() if ln.get_marker() == "o" and rgba(ln.get_markerfacecolor()) == rgba(face)
+                          for x, y in zip(ln.get_xdata(), ln.get_ydata()) if not np.isnan(x))
+        frq, amp = np.asarray(trad._main_peak_frq, dtype=float), np.asarray(trad._main_peak_amp, dtype=float)
+        has = ~np.isnan(frq)
+        vp = np.asarray(trad.valid_peak_boolean_mask, dtype=bool)
+        want_before = sorted((float(f), float(a)) for f, a, h_ in zip(frq, amp, has) if h_)
+        if marks(ax_before, "white") != want_before or marks(ax_before, "lightpink"):
+            fail("prepost:before-peaks", f"'before rejection' peak markers {marks(ax_before, 'white')} (+ rejected-style {marks(ax_before, 'lightpink')}) "
+                                         f"are not the object's window peaks {want_before}")
+        want_a = sorted((float(f), float(a)) for f, a, h_, v in zip(frq, amp, has, vp) if h_ and v)
+        want_r = sorted((float(f), float(a)) for f, a, h_, v in zip(frq, amp, has, vp) if h_ and not v)
+        if marks(ax_after, "white") != want_a or marks(ax_after, "lightpink") != want_r:
+            fail("prepost:after-peaks", f"'after rejection' peak markers accepted {marks(ax_after, 'white')} / rejected {marks(ax_after, 'lightpink')} "
+                                        f"are not the object's {want_a} / {want_r}")
 
     # ------------------------------------------------------------------------------------------
     def check_single_panel(self, ax, obj, inner, sline, cv, inst, dm, df):
@@ -264,6 +285,61 @@ class PlotHook:
                 self.fail(f"summary:row{r}", f"summary table row {r} = {tab[r].tolist()}, exact statistics {exp[r].tolist()}", sline, cv, inst)
 
 
+def kwargs_objects(run, hvsrpy, hook):
+    """What is drawn is the OBJECT's state also when that state was produced with non-default find_peaks_kwargs
+    (a narrow high spike and a broad lower bump: width=2 selects the bump) and a search range: the figures are
+    called, the object must be unchanged and the markers must be its own cached peaks."""
+    plt = hook.plt
+    f = np.geomspace(0.5, 20, 14)
+    rows = []
+    for w in range(4):
+        a = np.ones(14)
+        a[2 + (w % 2)] = 6.0 + w                    # spike, one sample wide
+        a[7:12] = [2.0, 3.0, 3.5 + 0.1 * w, 3.0, 2.0]    # bump
+        rows.append(a)
+    ts = hvsrpy.TimeSeries
+    x = np.sin(np.arange(40) * 0.7)
+    recs = [hvsrpy.SeismicRecording3C(ts(x * (w + 1), 0.01), ts(x[::-1] * (w + 1), 0.01), ts(x * 0.5, 0.01)) for w in range(4)]
+    n = 0
+    for kwargs, rng_ in ((dict(width=2), (None, None)), (dict(width=2), (1.0, 18.0)), (dict(prominence=3.0), (None, None)), (None, (None, 3.0))):
+        for masks in ([True] * 4, [True, False, True, True], [False, True, True, False]):
+            obj = hvsrpy.HvsrTraditional(f, np.array(rows))
+            obj.update_peaks_bounded(search_range_in_hz=rng_, find_peaks_kwargs=kwargs)
+            default = hvsrpy.HvsrTraditional(f, np.array(rows))
+            default.update_peaks_bounded(search_range_in_hz=rng_)
+            obj.valid_window_boolean_mask = np.array(masks) & np.asarray(obj.valid_window_boolean_mask)
+            obj.valid_peak_boolean_mask = np.array(masks) & np.asarray(obj.valid_peak_boolean_mask)
+            differs = not np.array_equal(obj._main_peak_frq, default._main_peak_frq, equal_nan=True)
+            d0 = digest(obj)
+            label = f"find_peaks_kwargs={kwargs} range={rng_} masks={masks}"
+            rep = dict(kind="plot-kwargs", kwargs=kwargs, range=rng_, masks=masks)
+
+            def fail(key, msg):
+                run.violation(f"plot:{key}:kwargs-object", f"{msg} | {label}", rep)
+            for name, fn in (("plot_single_panel_hvsr_curves", lambda: hvsrpy.plot_single_panel_hvsr_curves(obj, plot_invalid_curves=True, plot_peak_individual_invalid_curves=True)),
+                             ("summarize_hvsr_statistics", lambda: hvsrpy.summarize_hvsr_statistics(obj)),
+                             ("plot_pre_and_post_rejection", lambda: hvsrpy.plot_pre_and_post_rejection(recs, obj))):
+                try:
+                    with warnings.catch_warnings():
+                        warnings.simplefilter("ignore")
+                        out = fn()
+                except (ValueError, ZeroDivisionError):
+                    out = None      # e.g. "Mean curve does not have a peak" under these kwargs: legitimate; the object must still be unchanged
+                except Exception as e:
+                    out = None
+                    fail(f"{name}:exception", f"{name} raised {type(e).__name__}: {e}")
+                if digest(obj) != d0:
+                    fail(f"{name}:mutates-object", f"{name} changed the object it was given")
+                if out is not None and name == "plot_pre_and_post_rejection":
+                    PlotHook.check_prepost_markers(out[1][1], out[1][3], obj, fail)
+                if out is not None and name == "plot_single_panel_hvsr_curves":
+                    PlotHook.check_prepost_markers(out[1], out[1], obj, lambda k_, m_: fail(k_, m_) if "after" in k_ else None)
+                plt.close("all")
+            n += 1
+            run.case(("kwargs", json.dumps(kwargs), str(rng_), tuple(masks)) if differs else None)
+    run.notes["kwargs_objects"] = n
+
+
 def main():
     run = Run("C20")
     hvsrpy = import_hvsrpy()
@@ -294,6 +370,7 @@ def main():
         run.notes[f"plot_calls_NA{na}"] = hook.calls
         total_calls += hook.calls
     run.notes["plot_calls"] = total_calls
+    kwargs_objects(run, hvsrpy, hook)
     return run.finish(
         rule="states of the exported HvsrObject graphs reached on real traditional / 2-azimuth objects; at every k-th state "
              "the single-panel plot (all options on), summary table, pre/post-rejection figure, waveform plot resp. the three "
